@@ -85,6 +85,8 @@ def _stream_tok(rng, intern, nwin):
     return tok, win
 
 
+import logging as _logging
+NULL_HANDLER = _logging.NullHandler()
 PCG_MULT = 0x2360ED051FC65DA44385DF649FCCF645          # numpy's PCG64: state' = state * PCG_MULT + inc (mod 2^128)
 M128 = (1 << 128) - 1
 
@@ -124,7 +126,22 @@ def _streams(rnd, ntriples, nwin):
     triples = triples + rnd.sample(triples, min(len(triples), 6))     # repeats of identical triples, later in the process
     for j, (seed, nch, idx) in enumerate(triples):
         m = CountMCMC() if j % 2 == 0 else AnotherCountMCMC()
-        st, r = outcome(sampling.sample, m, ThetaHolder(n_thetas=1), seed, n_chains=nch, chain_index=idx, n_burnin=0, thin=1)
+        # every third call with debug logging switched on: the generator depends on (seed, n_chains, chain_index), not on how verbose the run is
+        import logging
+        verbose = j % 3 == 2
+        prev_disable, lg = logging.root.manager.disable, logging.getLogger("batchie")
+        prev_level = lg.level
+        if verbose:
+            logging.disable(logging.NOTSET)
+            lg.setLevel(logging.DEBUG)
+            lg.addHandler(NULL_HANDLER)
+        try:
+            st, r = outcome(sampling.sample, m, ThetaHolder(n_thetas=1), seed, n_chains=nch, chain_index=idx, n_burnin=0, thin=1)
+        finally:
+            if verbose:
+                lg.removeHandler(NULL_HANDLER)
+                lg.setLevel(prev_level)
+                logging.disable(prev_disable)
         if st != "ok" or m.rng is None:
             return {"what": "streams", "raised": str(r)}
         cyc, state = cycle_of(m.rng)
